@@ -169,6 +169,18 @@ def w_bonds(case, led):
             dofs = [i for i, x in enumerate(w) if x != "I"]
             f_ = float(rng.uniform(0.5, 2.0)) * (1 if rng.random() < 0.5 else -1)
             terms.append(Op(sym, dofs, f_, qn=[chg[x] for x in w if x != "I"]) if charged else Op(sym, dofs, f_))
+        # a product of two one-body sums with FACTORISING coefficients (a_i b_j): the coefficient matrix of the middle cut has rank one, the cover of the term
+        # graph does not - the bond of a graph-built operator is the cover (a rank-revealing construction behind a graph algorithm's name would be smaller)
+        if t % 6 == 5 and not charged:
+            n = 4
+            al, be = rng.uniform(0.5, 2.0, size=2), rng.uniform(0.5, 2.0, size=2)
+            words, terms = [], []
+            for i in range(2):
+                for j in range(2):
+                    w = ["I"] * n
+                    w[i], w[2 + j] = "sigma_z", "sigma_z"
+                    words.append(tuple(w))
+                    terms.append(Op("sigma_z sigma_z", [i, 2 + j], float(al[i] * be[j])))
         # duplicates whose coefficients cancel only up to rounding (0.1 + 0.2 - 0.3): the word is not part of the operator and costs no bond index
         if t % 4 == 3 and len(words) >= 3:
             wcancel = words[int(rng.integers(len(words)))]
